@@ -10,6 +10,7 @@
 import datetime
 import decimal
 import math
+import time
 import urllib.parse
 from collections.abc import Iterator, Callable
 from copy import copy
@@ -804,6 +805,9 @@ class XPathToken(Token[ta.XPathTokenType]):
             if item is None:
                 return []
             timezone = getattr(context, 'timezone', None)
+            if timezone is None:
+                # the implicit timezone, as returned by fn:implicit-timezone()
+                timezone = Timezone(datetime.timedelta(seconds=-time.timezone))
         else:
             item = self.get_argument(context, cls=cls)
             timezone = self.get_argument(context, 1, cls=DayTimeDuration)
